@@ -347,7 +347,7 @@ def legit(field: int, delete: bool, sym: str, wrongpw: bool, otherip: bool, elap
 def forge(part: int, sym: str, keepdigest: bool, dig: str, elapsed: int) -> bool:
     """
     pre: 0 <= part <= 3 and len(sym) <= B['x'] and all(ord(c) < 256 for c in sym)
-    pre: len(dig) <= 2 and all(ord(c) < 256 for c in dig)
+    pre: all(ord(c) < 256 for c in dig) and ((keepdigest and len(dig) == 0) or len(sym) + len(dig) <= B['x'])
     pre: 0 <= elapsed <= 2000
     post: _
     """
@@ -414,8 +414,10 @@ HARNESSES = [
       [("field == %d" % i, "not delete", "len(sym) == %d" % n) for i in (0, 1, 2, 3, 5, 6, 7, 9)
        for n in range(1, BOUNDS[tier]["x"] + 1)],
       timeout={"quick": 100, "thorough": 1500}),
-    H(forge, shards=lambda tier: [("part == %d" % i, "len(sym) == %d" % n, kd) for i in range(4)
-                                  for n in range(BOUNDS[tier]["x"] + 1) for kd in ("keepdigest", "not keepdigest")],
+    H(forge, shards=lambda tier: [("part == %d" % i, "len(sym) == %d" % n, "keepdigest") for i in range(4)
+                                  for n in range(BOUNDS[tier]["x"] + 1)] +
+      [("part == %d" % i, "len(sym) == %d" % n, "not keepdigest", "len(dig) == %d" % m) for i in range(4)
+       for n in range(BOUNDS[tier]["x"] + 1) for m in range(BOUNDS[tier]["x"] + 1 - n)],
       timeout={"quick": 100, "thorough": 1500}),
 ]
 
